@@ -372,3 +372,44 @@ Print Assumptions C04_eri_hyps_ex.
 Example C04_field_ex : is_field KQ4.
 Proof. exact KQ4_field. Qed.
 Print Assumptions C04_field_ex.
+
+(* a concrete (p d | s p) quartet, two primitives per shell, meeting every hypothesis of
+   C04_two_elec_correct for the entry [0][1][0][2][0][0][0][1] *)
+Example C04_two_elec_hyps_ex :
+  (forall x, fapx KQ4 x = x) /\ fadd KQ4 (f1 KQ4) (f1 KQ4) <> f0 KQ4
+  /\ (forall alpha beta, In alpha (s_exps ex_s1) -> In beta (s_exps ex_s2) -> fadd KQ4 alpha beta <> f0 KQ4)
+  /\ (forall gamma delta, In gamma (s_exps ex_s3) -> In delta (s_exps ex_s4) -> fadd KQ4 gamma delta <> f0 KQ4)
+  /\ (forall alpha beta gamma delta, In alpha (s_exps ex_s1) -> In beta (s_exps ex_s2) ->
+        In gamma (s_exps ex_s3) -> In delta (s_exps ex_s4) ->
+        fadd KQ4 (fadd KQ4 alpha beta) (fadd KQ4 gamma delta) <> f0 KQ4)
+  /\ (0 < nseg ex_s1 /\ 0 < nseg ex_s2 /\ 0 < nseg ex_s3 /\ 0 < nseg ex_s4)
+  /\ (1 < length (comps_of ex_s1) /\ 2 < length (comps_of ex_s2)
+      /\ 0 < length (comps_of ex_s3) /\ 1 < length (comps_of ex_s4))
+  /\ (compsum (nth 1 (comps_of ex_s1) (0, 0, 0)) <= s_l ex_s1
+      /\ compsum (nth 2 (comps_of ex_s2) (0, 0, 0)) <= s_l ex_s2
+      /\ compsum (nth 0 (comps_of ex_s3) (0, 0, 0)) <= s_l ex_s3
+      /\ compsum (nth 1 (comps_of ex_s4) (0, 0, 0)) <= s_l ex_s4).
+Proof. exact two_elec_hyps_ex. Qed.
+Print Assumptions C04_two_elec_hyps_ex.
+
+(* C04_eri_prim_correct on concrete numbers, both sides computed (vm_compute): the entry a = (1,0,1),
+   c = (1,0,0) of the primitive table with L = 3, for an arbitrary "Boys" sequence 1/(2m+1) *)
+Example C04_eri_prim_correct_ex :
+  let A := (qc_of 1 2, qc_of 0 1, qc_of (-1) 4) in let B := (qc_of 0 1, qc_of 1 1, qc_of 1 2) in
+  let C := (qc_of (-1) 1, qc_of 1 4, qc_of 0 1) in let D := (qc_of 3 4, qc_of (-1) 2, qc_of 1 1) in
+  let al := qc_of 1 2 in let be := qc_of 1 1 in let ga := qc_of 3 2 in let de := qc_of 1 2 in
+  let p := fadd KQ4 al be in let q := fadd KQ4 ga de in
+  let ctr := fun a b x y => fdiv KQ4 (fadd KQ4 (fmul KQ4 a x) (fmul KQ4 b y)) (fadd KQ4 a b) in
+  let Px := ctr al be (qc_of 1 2) (qc_of 0 1) in let Py := ctr al be (qc_of 0 1) (qc_of 1 1) in
+  let Pz := ctr al be (qc_of (-1) 4) (qc_of 1 2) in
+  let Qx := ctr ga de (qc_of (-1) 1) (qc_of 3 4) in let Qy := ctr ga de (qc_of 1 4) (qc_of (-1) 2) in
+  let Qz := ctr ga de (qc_of 0 1) (qc_of 1 1) in
+  eget KQ4 (eri_prim KQ4 3 1 A B C D al be ga de) 1 0 0 1 0 1
+  = Phi KQ4 (eri_base KQ4 (qc_of 1 2) (qc_of 0 1) (qc_of (-1) 4) (qc_of 0 1) (qc_of 1 1) (qc_of 1 2)
+                          (qc_of (-1) 1) (qc_of 1 4) (qc_of 0 1) (qc_of 3 4) (qc_of (-1) 2) (qc_of 1 1)
+                          al be ga de) 0
+        (R3 KQ4 p q (fsub KQ4 Px (qc_of 1 2)) (fsub KQ4 Py (qc_of 0 1)) (fsub KQ4 Pz (qc_of (-1) 4))
+            (fsub KQ4 Qx (qc_of (-1) 1)) (fsub KQ4 Qy (qc_of 1 4)) (fsub KQ4 Qz (qc_of 0 1))
+            (fsub KQ4 Px Qx) (fsub KQ4 Py Qy) (fsub KQ4 Pz Qz) 1 0 0 1 0 1).
+Proof. exact eri_prim_correct_ex. Qed.
+Print Assumptions C04_eri_prim_correct_ex.
